@@ -54,8 +54,20 @@ func NewSlice3(base unsafe.Pointer, eltSize, cap, i, j, k int) (s Slice) {
 }
 
 // SliceAppend append elem data and returns a slice.
+// zeroSizeBase is the address of every non-nil slice of zero-size elements
+// that append had to create.
+var zeroSizeBase uintptr
+
 func SliceAppend(src Slice, data unsafe.Pointer, num, etSize int) Slice {
 	if etSize == 0 {
+		// Zero-size elements need no storage, but the length still grows.
+		src.len += num
+		if src.len > src.cap {
+			src.cap = src.len
+		}
+		if src.data == nil && src.len > 0 {
+			src.data = unsafe.Pointer(&zeroSizeBase)
+		}
 		return src
 	}
 	oldLen := src.len
